@@ -302,6 +302,7 @@ int vf_buf_alloc_raw (vf_buf *b, pixman_format_code_t fmt, int bpp, int w, int h
     b->fmt = fmt; b->w = w; b->h = h; b->bpp = bpp; b->place = place;
     int64_t rowbits = (int64_t)w * b->bpp;
     b->rowbytes = (int)((rowbits + 31) / 32 * 4);
+    if (bpp == 128) pad_words = (pad_words + 3) & ~3;      /* pixman requires 16-byte multiples for 128-bpp strides */
     int stride = b->rowbytes + 4 * pad_words;
     if (h <= 1 && !pad_words) stride = b->rowbytes;
     b->bytes = h > 0 ? (size_t)(h - 1) * stride + b->rowbytes : 0;
